@@ -96,6 +96,12 @@ def synthetic_shapes(isa, rnd):
         dict(name="opz", canon=["s", "s"], order={x: [0, 1], a: [0, 1]}, in_db=True, fw=["Z"]),   # other flag
         dict(name="opy", canon=["d"], order={x: [0], a: [0]}, in_db=True, fr=["Z"]),
     ]
+    # implicit register operands only (like cltq / cqto): no written operand at all
+    hp = GPR_POOL[isa]
+    shapes += [
+        dict(name="hid1", canon=[], order={x: [], a: []}, in_db=True, hidden=[(rnd.choice(hp), "sd")]),
+        dict(name="hid2", canon=[], order={x: [], a: []}, in_db=True, hidden=[(rnd.choice(hp), "s"), (rnd.choice(hp), "d")]),
+    ]
     if isa == "aarch64":
         shapes += [
             dict(name="wbl", canon=["d", "ms"], order={a: [0, 1]}, in_db=False, wb="post"),
@@ -108,6 +114,7 @@ def synthetic_shapes(isa, rnd):
         s.setdefault("vec", False)
         s.setdefault("memform", False)
         s.setdefault("wb", None)
+        s.setdefault("hidden", [])
         s["roles"] = [s["canon"][i] for i in s["order"][isa]]
         s["lat"] = L()
     return shapes
@@ -153,6 +160,14 @@ def write_synthetic_models(isa, shapes, dirpath, pidx=None, fwd=None):
             hid = [synth.flag(n, True, False) for n in s["fr"] if n not in s["fw"]]
             hid += [synth.flag(n, False, True) for n in s["fw"] if n not in s["fr"]]
             hid += [synth.flag(n, True, True) for n in s["fw"] if n in s["fr"]]
+            for fam, role in s.get("hidden", []):
+                nm = reg_name(isa, fam, None, wide=True)
+                d = {"class": "register", "source": "s" in role, "destination": "d" in role}
+                if isa == "x86":
+                    d["name"] = nm
+                else:
+                    d["prefix"], d["name"] = nm[0], nm[1:]
+                hid.append(d)
             if hid:
                 f["hidden_operands"] = hid
             if s["zero"]:
@@ -237,6 +252,11 @@ def gen_instr(isa, shape, rnd, pool=None, vpool=None, args=None, same_width=Fals
             R.add(args[i])
         if r in ("d", "sd"):
             W.add(args[i])
+    for fam, role in shape.get("hidden", []):
+        if "s" in role:
+            R.add(fam)
+        if "d" in role:
+            W.add(fam)
     fr = [] if idiom else ["f:" + n for n in shape["fr"]]
     fw = ["f:" + n for n in shape["fw"]]
     texts = [texts_c[i] for i in shape["order"][isa]]
@@ -244,7 +264,7 @@ def gen_instr(isa, shape, rnd, pool=None, vpool=None, args=None, same_width=Fals
     lds = bool(shape["memform"])
     total = lat + (LOAD_LAT if lds else 0.0)
     return {
-        "text": "%s %s" % (shape["name"], ", ".join(texts)),
+        "text": ("%s %s" % (shape["name"], ", ".join(texts))).strip(),
         "R": sorted(R), "W": sorted(W), "WB": sorted(WB), "FR": fr, "FW": fw,
         "lat": units(total), "latwo": units(lat), "lds": lds, "ST": ST, "LD": LD, "CH": CH,
         "shape": shape["name"],
